@@ -305,6 +305,10 @@ class AsyncSrc:
     def __init__(self, st: SrcState):
         self.st = st
 
+    def __bool__(self) -> bool:
+        # falsy on purpose (like an object with a zero ``__len__``): never a reason to skip it
+        return False
+
     def __aiter__(self) -> "AsyncSrc":
         return self
 
@@ -587,11 +591,19 @@ def make_fn(fs: FnState, flavour: str) -> Any:
             def __call__(self, *args: Any, **kwargs: Any) -> Any:
                 return eager_call(*args, **kwargs)
 
+            def __bool__(self) -> bool:
+                # a callable object may well be falsy (an empty registry, a zero-length wrapper): "was a key given?"
+                # can only be asked with ``is None``
+                return False
+
         return CallObj()
     if flavour == "awaitobj":
         class AwaitCallObj:
             def __call__(self, *args: Any, **kwargs: Any) -> Any:
                 return _AwaitObj(eager_call(*args, **kwargs))
+
+            def __len__(self) -> int:
+                return 0
 
         return AwaitCallObj()
     raise ValueError(flavour)
@@ -613,6 +625,10 @@ class VLock:
         self.bad_release = 0
         self.susp_enter = susp_enter
         self.susp_exit = susp_exit  # suspend after the lock was handed back (locks whose release is a checkpoint)
+
+    def __bool__(self) -> bool:
+        # falsy on purpose: "was a lock given?" can only be asked with ``is None``
+        return False
 
     async def __aenter__(self) -> "VLock":
         if self.susp_enter:
